@@ -1,16 +1,16 @@
 SPECIFICATION Spec
 CONSTANTS
   MaxPool = 3
-  Strategy = "rr"
+  Strategies = {"fanout"}
   Keys = {"-"}
   Pools = {1, 2, 3}
-  Presets = {0, 1, 2, 3, 4, 5, 6, 7}
+  Presets = {0}
   Hi = 2
   Lo = 4
   VN = 1
   H = 1
   VTabs <- NoVTab
   KTabs <- NoKTab
-  Defects = {}
+  Defects = {"DeadRoutee"}
 INVARIANTS TypeOK AliveInMap
 PROPERTIES NoDrop RoundRobin FanOut Sticky
